@@ -129,8 +129,9 @@ scan_ptr_elem(const struct gl_leaf *lf, uint32_t off, const uint32_t *index, voi
         const uint64_t v = *(const uint64_t *) (sc->base + off);
         char name[160];
 
-        if (lf->kind != GL_PTR || v == 0)
-                return;
+        if (lf->kind != GL_PTR || v < 0x10000)
+                return; /* NULL, or a small integer kept in a pointer-typed field (SNOW3G x16 keeps byte counts in
+                           args.in/out): below mmap_min_addr, not an address in any process */
         const int in_region =
                 v >= (uint64_t) (uintptr_t) sc->ar->base && v < (uint64_t) (uintptr_t) sc->ar->base + sc->ar->size;
         const int lane_busy = (lf->ndims == 0) || (index[0] < 64 && sc->inuse[index[0]]);
